@@ -23,6 +23,7 @@ import (
 	"sort"
 	"strings"
 	"time"
+	"unsafe"
 
 	"mvdan.cc/sh/v3/syntax"
 	"verifharness/hx"
@@ -586,8 +587,11 @@ func reuseCase(id string, r *rand.Rand, corpus []string, src string) []caseObs {
 			histPanic := false
 			for i := 0; i < k; i++ {
 				hsrc := corpus[r.IntN(len(corpus))]
-				if r.IntN(3) == 0 {
+				switch r.IntN(4) {
+				case 0:
 					hsrc = hx.Pick(r, printerDirty)
+				case 1:
+					hsrc = hx.Pick(r, hs.NestedMatrix())
 				}
 				hl := hx.Pick(r, hs.Langs)
 				hf, herr, hp := parseRef(hsrc, hs.Cfg{Lang: hl, Keep: true, Recover: r.IntN(3)})
@@ -696,6 +700,59 @@ func printerCross(o hx.Opts) {
 				targets = append(targets, tn{c, n})
 			}
 			break
+		}
+	}
+	// nested-context matrix: as histories against every catalogue file and against each other (whole files)
+	nested := hs.NestedMatrix()
+	var nestedFiles []tn
+	for _, c := range nested {
+		if f, err, pp := parseRef(c, hs.Cfg{Lang: syntax.LangBash, Keep: true}); pp == "" && err == nil {
+			nestedFiles = append(nestedFiles, tn{c, f})
+		}
+	}
+	var fileTargets []tn
+	for _, t := range targets {
+		if _, ok := t.node.(*syntax.File); ok {
+			fileTargets = append(fileTargets, t)
+		}
+	}
+	for _, setName := range sets {
+		for hi, h := range nestedFiles {
+			hs.SetCurrent("printer cross " + setName + " after nested " + h.src)
+			nfail, npair := 0, 0
+			// quick: each history against a rotating third of the nested files + all catalogue files; thorough: everything
+			for ti, t := range append(append([]tn{}, nestedFiles...), fileTargets...) {
+				if o.Tier != "thorough" && ti < len(nestedFiles) && (ti+hi+int(o.Seed))%3 != 0 && !strings.Contains(t.src, "<<-") {
+					continue
+				}
+				want, wantErr, wp := printWith(syntax.NewPrinter(hs.PrinterSets[setName]...), t.node)
+				if wp != "" {
+					continue
+				}
+				used := syntax.NewPrinter(hs.PrinterSets[setName]...)
+				if _, _, p1 := printWith(used, h.node); p1 != "" {
+					continue
+				}
+				got, gotErr, gp := printWith(used, t.node)
+				po := caseObs{Mode: "reuse-printer-cross", ID: "cross-nested", Hex: hx.Hex(t.src), Lang: "bash", Valid: true, NStmt: 1}
+				if gp != "" {
+					po.Fails = append(po.Fails, "reused_printer_panics")
+				} else if got != want || gotErr != wantErr {
+					po.Fails = append(po.Fails, "reused_printer_output_differs")
+					po.Note = fmt.Sprintf("fresh=%q reused=%q opts=%s history=%q", trunc(want, 120), trunc(got, 120), setName, h.src)
+				}
+				npair++
+				if len(po.Fails) > 0 {
+					if nfail++; nfail > 2 {
+						continue
+					}
+				} else if npair%40 != 0 {
+					continue
+				} else {
+					po.NStmt = 40
+				}
+				hx.Emit(po)
+			}
 		}
 	}
 	for _, setName := range sets {
@@ -989,6 +1046,62 @@ func fields(o hx.Opts) {
 			}
 		}
 		hx.Emit(row)
+	}
+	// ---- nested instances: a field that points to another Printer (allocated lazily by some printing path) carries state of
+	// its own that Printer.reset never sees. Every field of the nested instance is probed too: the used printer first prints
+	// inputs that make it allocate the nested instance, then the nested field is poisoned, then the API is called.
+	printerType := reflect.TypeFor[syntax.Printer]()
+	for i := range printerType.NumField() {
+		pf := printerType.Field(i)
+		if pf.Type.Kind() != reflect.Pointer || pf.Type.Elem() != printerType {
+			continue
+		}
+		warm := []string{"cat <<-EOF\n\t$(a &&\n\t\tb)\n\tEOF\n", "if x; then\n\tcat <<-E\n\t\ta $(b |\n\t\t\tc)\n\tE\nfi\n"}
+		var nestedProbes []string
+		for _, c := range append(append([]string{}, hs.NestedMatrix()...), hs.Catalogue...) {
+			if strings.Contains(c, "<<") {
+				nestedProbes = append(nestedProbes, c)
+			}
+		}
+		for _, fld := range syntax.VerifPrinterFields() {
+			name := pf.Name + "." + fld.Name
+			hs.SetCurrent("fields probe Printer." + name)
+			row := fieldRow{Struct: "Printer", Name: name, Type: fld.Type}
+			for pi, src := range nestedProbes {
+				f, perr, pp := parseRef(src, hs.Cfg{Lang: syntax.LangBash, Keep: true})
+				if pp != "" || perr != nil {
+					continue
+				}
+				setName := []string{"default", "ind2bin", "single"}[pi%3]
+				want, wantErr, wp := printWith(syntax.NewPrinter(hs.PrinterSets[setName]...), f)
+				if wp != "" {
+					continue
+				}
+				used := syntax.NewPrinter(hs.PrinterSets[setName]...)
+				for _, w := range warm {
+					if wf, werr, _ := parseRef(w, hs.Cfg{Lang: syntax.LangBash, Keep: true}); werr == nil {
+						printWith(used, wf)
+					}
+				}
+				nv := reflect.ValueOf(used).Elem().FieldByName(pf.Name)
+				if nv.IsNil() {
+					continue // this option set never allocates the nested instance
+				}
+				nested := (*syntax.Printer)(unsafe.Pointer(nv.Pointer()))
+				if !syntax.VerifPoisonPrinter(nested, fld.Name) {
+					row.Witness = "cannot poison"
+					break
+				}
+				got, gotErr, gp := printWith(used, f)
+				row.ProbeCases++
+				if gp != "" || got != want || gotErr != wantErr {
+					row.ProbeLive = true
+					row.Witness = fmt.Sprintf("%s %q", setName, trunc(src, 80))
+					break
+				}
+			}
+			hx.Emit(row)
+		}
 	}
 }
 
